@@ -407,3 +407,24 @@ Example Tables_example_C :
   /\ source_doc exB_leads 0 8 = [bs "T is documented."; bs "second line"]
   /\ RD.covered (ty_from_source exB_evs exB_G exB_docs exC_tpos exC_fpos (hd (RD.mk_ty [] false false RD.TOther []) exC_pkg)) = true.
 Proof. vm_compute. repeat split; reflexivity. Qed.
+
+(* A hand-run probe of the REAL code (gengo.Execute with a recording generator `deep`, /root/w/repo-tables, notes/Tables.md)
+   on comment forms the generated modules do not contain; the composed model predicts what was observed:
+     package doc  `//<TAB>+gengo:deep`                    -> no package tag (that path does not TrimSpace the text)
+     type A       `//<TAB>+gengo:deep`                    -> called   (first line: commentLinesFrom's TrimSpace removes the tab)
+     type B       `// B is.` / `//<TAB>+gengo:deep`       -> not called (a tab is not trimmed from a later line: no tag line)
+     type C       `// +gengo:deep false`                  -> not called (a space separates key and value)
+     type D       `// +gengo:deep:opt  x`                 -> called, Context.Doc tag gengo:deep:opt = [" x"] *)
+Definition pr_tab : bytes := [ascii_of_N 9].
+Definition pr_nl : bytes := [ascii_of_N 10].
+Definition pr_enabled (text : bytes) : bool :=
+  enabled_from_lines (bs "deep") [] (pkg_tags_from_source [pr_tab ++ bs "+gengo:deep" ++ pr_nl]) (Cm.group_lines true text).
+
+Example Tables_example_probe :
+  pkg_tags_from_source [pr_tab ++ bs "+gengo:deep" ++ pr_nl] = []
+  /\ pr_enabled (pr_tab ++ bs "+gengo:deep" ++ pr_nl) = true
+  /\ pr_enabled (bs "B is." ++ pr_nl ++ pr_tab ++ bs "+gengo:deep" ++ pr_nl) = false
+  /\ pr_enabled (bs "+gengo:deep false" ++ pr_nl) = false
+  /\ pr_enabled (bs "+gengo:deep:opt  x" ++ pr_nl) = true
+  /\ fst (Cm.extract_tags true [] (Cm.group_lines true (bs "+gengo:deep:opt  x" ++ pr_nl))) = [(bs "gengo:deep:opt", [bs " x"])].
+Proof. vm_compute. repeat split; reflexivity. Qed.
